@@ -47,9 +47,14 @@ def parse_obs(line):
     return {"id": f[0], "status": int(f[1]), "headers": hdrs, "events": evs, "calls": calls, "panic": panic}
 
 
+def _native_dir(repo):
+    import hashlib
+    return os.path.join(NATIVE, hashlib.sha256(os.path.abspath(repo).encode()).hexdigest()[:8])
+
+
 def prepare_native(repo=None):
     repo = repo or os.environ.get("VERIF_REPO", "/repo")
-    dst = os.path.join(NATIVE, "repo")
+    dst = os.path.join(_native_dir(repo), "repo")
     os.makedirs(dst, exist_ok=True)
     subprocess.run(["rsync", "-a", "--delete", "--exclude", "target", "--exclude", ".git", repo.rstrip("/") + "/", dst + "/"], check=True)
     for f in os.listdir(os.path.join(VERIF, "native")):
@@ -61,15 +66,15 @@ def prepare_native(repo=None):
 def run_native(test, scenarios, repo=None, timeout=900):
     """Run scenario dicts through tests/verif_<test>.rs of the scratch copy. Returns list of observations."""
     dst = prepare_native(repo)
-    os.makedirs(NATIVE, exist_ok=True)
+    nd = _native_dir(repo or os.environ.get("VERIF_REPO", "/repo"))
     tag = "%d" % os.getpid()
-    inp, outp = os.path.join(NATIVE, "scn-%s.txt" % tag), os.path.join(NATIVE, "obs-%s.txt" % tag)
+    inp, outp = os.path.join(nd, "scn-%s.txt" % tag), os.path.join(nd, "obs-%s.txt" % tag)
     with open(inp, "w") as f:
         for sc in scenarios:
             f.write((sc if isinstance(sc, str) else scenario_line(sc)) + "\n")
     if os.path.exists(outp):
         os.remove(outp)
-    env = dict(os.environ, CARGO_TARGET_DIR=os.path.join(NATIVE, "target"), VERIF_SCENARIOS=inp, VERIF_OBS=outp, CARGO_NET_OFFLINE="true")
+    env = dict(os.environ, CARGO_TARGET_DIR=os.path.join(nd, "target"), VERIF_SCENARIOS=inp, VERIF_OBS=outp, CARGO_NET_OFFLINE="true")
     p = subprocess.run(["cargo", "test", "--offline", "--quiet", "--test", "verif_" + test, "--", "--nocapture"], cwd=dst, env=env,
                        stdout=subprocess.PIPE, stderr=subprocess.STDOUT, text=True, timeout=timeout)
     if not os.path.exists(outp):
